@@ -477,6 +477,8 @@ void World::table_check(const std::string& op, int64_t touched)
                        "get_" + std::string(c.name) + " returns " + a + ", row holds " + c.of(it->second));
         }
         probes.hit("table_row_checked");
+        if (check(CK_AUDIT))
+            audit_table_row(touched, it->second, op);
     }
     // abstract state of the table world (for the distinct-state measure and the log)
     {
